@@ -64,4 +64,22 @@ def wndSpec (size : Nat) (w : Option (List α)) : List α :=
   | some w => w
 end
 
+/-! ### the stft wrapper -/
+
+/-- What the overlap-add strategy is called with, as a lookup: `size`, `hop`, and for every option
+    given as `ola_<k>` the option `<k>` (which wins over `size` / `hop`); nothing else.
+    `merged` = defaults overridden by the call's keywords (distinct keys). -/
+def olaKwSpec {β : Type} (size hop : β) (merged : List (String × β)) (k : String) : Option β :=
+  match merged.find? (fun kv => kv.1 = "ola_" ++ k) with
+  | some kv => some kv.2
+  | none => if k = "size" then some size else if k = "hop" then some hop else none
+
+/-- what the user function receives for block k: the k-th block of the signal (C08: samples
+    k*hop … k*hop+size-1, zero padded), multiplied by the analysis window FIRST, then `before`,
+    then `transform` -/
+def funcInputSpec [Mul α] (blocksOf : List α → List (List α)) (w : Option (List α))
+    (before transform : List α → List α) (sig : List α) : List (List α) :=
+  (blocksOf sig).map fun B =>
+    transform (before (match w with | none => B | some w => List.zipWith (· * ·) B w))
+
 end ALV.C09
